@@ -2,6 +2,7 @@ package main
 
 import (
 	"fmt"
+	"os"
 	"go/ast"
 	"go/token"
 	"go/types"
@@ -36,7 +37,7 @@ func verifyFunction(w *World, con *Contract) *FuncResult {
 	res := &FuncResult{Key: fnKey(fn), Fn: fn}
 	var e *Exec
 	havoc := map[string]map[string]bool{}
-	for attempt := 0; attempt < 12; attempt++ {
+	for attempt := 0; attempt < 16; attempt++ {
 		e = newExec(w, fn, con)
 		e.loopHavoc = havoc
 		e.runTop()
@@ -45,6 +46,11 @@ func verifyFunction(w *World, con *Contract) *FuncResult {
 		}
 		havoc = e.loopHavoc
 		res.Restarts++
+		if os.Getenv("GOVC_DEBUG") != "" {
+			for k, hs := range havoc {
+				fmt.Fprintf(os.Stderr, "restart %d: %s -> %v\n", res.Restarts, k, sortedKeys(hs))
+			}
+		}
 	}
 	if e.restart {
 		e.errs = append(e.errs, "loop havoc set did not stabilise")
